@@ -59,9 +59,23 @@ def contexts(has_func):
     for bname, lines in BASES.items():
         for pos in range(len(lines) + 1):
             out.append((f"top/{bname}/{pos}", lambda t, lines=lines, pos=pos: "\n".join(lines[:pos] + [t] + lines[pos:]) + "\n"))
+    base = "\n".join(BASES["arith"]) + "\n"
+    # the construct's statements separated by valid scope-opening constructs (function with a loop, nested loops)
+    SEP = {
+        "func-with-loop": "func zsep(Signal w) {\n for zq in 0..2 {\n  Signal zt = w + zq;\n }\n return w + 1;\n}\nSignal zsepuse = zsep(a);\n",
+        "nested-loops": "for zi in 0..2 {\n for zj in 0..2 {\n  Signal zt = zi + zj + a;\n }\n}\n",
+        "loop-calling-func-with-loop": "func zsep2(Signal w) {\n for zq in [1, 2] {\n  Signal zt = w * zq;\n }\n return w;\n}\nfor zi in 0..2 {\n Signal zu = zsep2(a + zi);\n}\n",
+    }
+
+    def split(t, sep):
+        parts = split_top_level(t)
+        if len(parts) < 2:
+            return base + sep + t + "\n"
+        return base + "\n".join(parts[:-1]) + "\n" + sep + parts[-1] + "\n"
+    for sname, sep in SEP.items():
+        out.append((f"split/{sname}", lambda t, sep=sep: split(t, sep)))
     if has_func:
         return out
-    base = "\n".join(BASES["arith"]) + "\n"
 
     def infunc(calls):
         def b(t):
@@ -85,6 +99,20 @@ def contexts(has_func):
     out.append(("func-in-loop", func_in_loop))
     out.append(("after-valid-use", lambda t: base + "Signal z9 = b + c;\n" + t + "\nSignal z8 = z9 * 2;\n"))
     return out
+
+
+def split_top_level(text):
+    """top-level statements of a construct (brace-balanced)"""
+    parts, cur, depth = [], [], 0
+    for ln in text.splitlines():
+        cur.append(ln)
+        depth += ln.count("{") - ln.count("}")
+        if depth == 0:
+            parts.append("\n".join(cur))
+            cur = []
+    if cur:
+        parts.append("\n".join(cur))
+    return parts
 
 
 def looks_like_blueprint(text):
@@ -113,7 +141,7 @@ class C14(core.Check):
     rule = ("every violating construct (31 constructs for the 17 documented rule groups, each self-contained) x every "
             "embedding (every statement position of three accepted base programs; inside a function called once / twice "
             "/ never; inside loop bodies with 1, 2 and 3 iterations and nested loops; inside a function called from a loop; "
-            "between valid uses); the compiler must raise or return success=False with a message naming the problem, and "
+            "between valid uses; with the construct's own statements separated by a function containing a loop / nested loops); the compiler must raise or return success=False with a message naming the problem, and "
             "(CLI cases) exit non-zero printing nothing that decodes as a blueprint; every embedding is first shown to be "
             "accepted with a benign statement in place of the construct; non-trivial = the control program was accepted")
     assumptions = ["the benign control statement makes every embedding an accepted program",
